@@ -4,7 +4,7 @@
    Overflow / underflow / cancellation are binary64 phenomena outside the
    exact-arithmetic model (partial; watched on the implementation). *)
 From Coq Require Import List Bool Arith Reals.
-From ART Require Import Num NumR Vec Search Kernel BaseArt Total Total_R Fuzzy ART2A Hyper.
+From ART Require Import Num NumR Vec Search Kernel BaseArt Total Total_R Total_fit Fuzzy ART2A ART1 ART1_total Hyper Bounds_R Hyper_total Ellip_total Gauss Gauss_total.
 Import ListNotations.
 Open Scope nat_scope.
 
@@ -37,7 +37,63 @@ Theorem C04_hypersphere_total :
     0 < r_hat -> (forall w, In w (W s) -> 0 < r_hat - @hs_radius RN w + alpha) ->
     step_fit (@hyperK RN alpha beta r_hat) s x veto m eps <> None.
 Proof. exact hyper_step_total. Qed.
+(* whole calls: every data set that passes the estimator's own validation can be fitted and incrementally fitted,
+   from every state, for every mode / epsilon / reset function; and predicted once a category exists *)
+Theorem C04_fuzzy_fit_total :
+  forall (alpha beta : R) (s : st (N:=RN)) X veto m eps,
+    0 < alpha -> valid (@fuzzyK RN alpha beta) s X = true -> Forall (fun x => (2 <= length x)%nat) X ->
+    fit (@fuzzyK RN alpha beta) s X veto m eps <> None /\ partial_fit (@fuzzyK RN alpha beta) s X veto m eps <> None.
+Proof. exact fuzzy_fit_total. Qed.
+Theorem C04_art2a_fit_total :
+  forall (alpha beta : R) (s : st (N:=RN)) X veto m eps,
+    valid (@art2K RN alpha beta) s X = true ->
+    fit (@art2K RN alpha beta) s X veto m eps <> None /\ partial_fit (@art2K RN alpha beta) s X veto m eps <> None.
+Proof. exact art2a_fit_total. Qed.
+Theorem C04_fuzzy_predict_total :
+  forall (alpha beta : R) (s : st (N:=RN)) X,
+    0 < alpha -> hasW s = true -> W s <> [] -> valid (@fuzzyK RN alpha beta) s X = true ->
+    predict (@fuzzyK RN alpha beta) s X <> None.
+Proof. exact fuzzy_predict_total. Qed.
+(* Hypersphere ART: under every mode whose match tracking never lowers the vigilance (no reset function, MT+ with
+   eps >= 0, MT0, MT1, MT~) the stored radii stay within r_hat (1 - rho), so - with alpha > 0, or rho > 0 - the
+   denominators never vanish and fit / partial_fit are defined on every valid data set *)
+Theorem C04_hypersphere_fit_total :
+  forall (alpha beta r_hat : R), 0 <= beta <= 1 -> 0 < r_hat ->
+  forall (s : st (N:=RN)) X veto m eps rho0,
+    raising m eps -> 0 <= rho0 <= 1 -> (0 < alpha \/ (0 <= alpha /\ 0 < rho0)) -> rho s = [rho0] ->
+    valid (@hyperK RN alpha beta r_hat) s X = true -> fit (@hyperK RN alpha beta r_hat) s X veto m eps <> None.
+Proof. exact hyper_fit_total. Qed.
+Theorem C04_hypersphere_partial_fit_total :
+  forall (alpha beta r_hat : R), 0 <= beta <= 1 -> 0 < r_hat ->
+  forall (s : st (N:=RN)) X veto m eps rho0,
+    raising m eps -> 0 <= rho0 <= 1 -> (0 < alpha \/ (0 <= alpha /\ 0 < rho0)) -> HInv r_hat rho0 s ->
+    valid (@hyperK RN alpha beta r_hat) s X = true -> partial_fit (@hyperK RN alpha beta r_hat) s X veto m eps <> None.
+Proof. exact hyper_partial_fit_total. Qed.
+(* ART1 with L > 1 on non-zero rows (the quantifier's standing assumption) *)
+Theorem C04_art1_fit_total :
+  forall (L : R) (s : st (N:=RN)) X veto m eps,
+    1 < L -> valid (@art1K RN L) s X = true -> Forall nonzero_row X ->
+    fit (@art1K RN L) s X veto m eps <> None /\ partial_fit (@art1K RN L) s X veto m eps <> None.
+Proof. exact art1_fit_total. Qed.
+(* Ellipsoid ART: same argument with the bound r_hat (1 - rho) / 2 on the radii; mu <> 0 *)
+Theorem C04_ellipsoid_fit_total :
+  forall (alpha beta mu r_hat : R), 0 <= beta <= 1 -> 0 < r_hat -> mu <> 0 ->
+  forall (s : st (N:=RN)) X veto m eps rho0,
+    raising m eps -> 0 <= rho0 <= 1 -> (0 < alpha \/ (0 <= alpha /\ 0 < rho0)) -> rho s = [rho0] ->
+    valid (@ellipK RN alpha beta mu r_hat) s X = true -> fit (@ellipK RN alpha beta mu r_hat) s X veto m eps <> None.
+Proof. exact ellip_fit_total. Qed.
+(* Gaussian ART: every stored weight keeps its layout with positive standard deviations and a count >= 1, so no
+   division by zero can occur (alpha >= 0, sigma_init > 0 of the data width d) *)
+Theorem C04_gaussian_fit_total :
+  forall (sigma_init : list R) (alpha : R) (d : nat),
+    0 <= alpha -> length sigma_init = d -> Forall (fun a => 0 < a) sigma_init ->
+  forall (s : st (N:=RN)) X veto m eps,
+    valid (@gaussK RN sigma_init alpha) s X = true -> Forall (fun x => length x = d) X ->
+    fit (@gaussK RN sigma_init alpha) s X veto m eps <> None.
+Proof. exact gauss_fit_total. Qed.
 Print Assumptions C04_fuzzy_total.
+Print Assumptions C04_fuzzy_fit_total.
+Print Assumptions C04_hypersphere_fit_total.
 
 (* the repaired Hypersphere update is defined on a repeated sample (the code
    before the fix divided 0 by 0 here) *)
